@@ -29,14 +29,49 @@ def seed_classes(rng, nbytes, nrand, all_bits=True, nzero_walk=8):
             for k in range(nbytes // wsize):
                 b[k * wsize + wsize - 1] = 0x80
             out.append(("highbit", bytes(b)))
+    out += coincidence_seeds(rng, nbytes, k=max(2, nrand // 40))
     for _ in range(nrand):
         out.append(("random", rand_bytes(rng, nbytes)))
     return out
 
+def coincidence_seeds(rng, nbytes, k=1):
+    """seeds with a numeric coincidence between their words: words (32- and 64-bit) summing to 0 mod 2^w, xoring to 0,
+    bytes summing to 0 mod 256, two equal words, negated pairs — inputs on which `sum == 0`, `xor == 0`, `a == b`
+    style shortcuts misfire.  Never all-zero."""
+    out = []
+    for _ in range(k):
+        for wsz in (4, 8):
+            if nbytes % wsz or nbytes // wsz < 2:
+                continue
+            n = nbytes // wsz
+            mod = 1 << (8 * wsz)
+            ws = [rng.getrandbits(8 * wsz) for _ in range(n - 1)]
+            out.append((f"sum0_{8*wsz}", b"".join(w.to_bytes(wsz, "little") for w in ws + [(-sum(ws)) % mod])))
+            x = 0
+            for w in ws:
+                x ^= w
+            out.append((f"xor0_{8*wsz}", b"".join(w.to_bytes(wsz, "little") for w in ws + [x])))
+            # only two non-zero words: a and -a ; a and a
+            a = rng.getrandbits(8 * wsz) | 1
+            i, j = rng.sample(range(n), 2)
+            for tag, b_ in (("neg_pair", (-a) % mod), ("eq_pair", a)):
+                ws2 = [0] * n
+                ws2[i], ws2[j] = a, b_
+                out.append((f"{tag}_{8*wsz}", b"".join(w.to_bytes(wsz, "little") for w in ws2)))
+        b = bytearray(rand_bytes(rng, nbytes - 1))
+        b.append((-sum(b)) % 256)
+        out.append(("bytesum0", bytes(b)))
+    return [(c, s_) for c, s_ in out if any(s_)]
+
 def pick_seed(rng, nbytes):
     """mostly random, often structured: one bit, one byte, one zero word, repeated word, all ones, high bits"""
     r = rng.random()
+    if r < 0.45:
+        return rand_bytes(rng, nbytes)
     if r < 0.55:
+        cs = coincidence_seeds(rng, nbytes)
+        if cs:
+            return rng.choice(cs)[1]
         return rand_bytes(rng, nbytes)
     if r < 0.65:
         return (1 << rng.randrange(nbytes * 8)).to_bytes(nbytes, "little")
@@ -141,12 +176,27 @@ def tie_C02(ctx):
     seeds.append(("ones", b"\xff" * 32))
     for _ in range(ctx.scale(40, 600)):
         seeds.append(("random", rand_bytes(rng, 32)))
+    seeds += coincidence_seeds(rng, 32, k=ctx.scale(2, 10))
+    # seeds on which a small-constant addition of the key/IV expansion carries out of 32 bits (found once by
+    # tools/gen_hc128_carry.py): they separate wrapping from saturating / checked arithmetic
+    cpath = os.path.join(VERIF, "corpus", "hc128_carry_seeds.json")
+    if os.path.exists(cpath):
+        corp = json.load(open(cpath))
+        keys = [k for k in corp if 256 <= int(k) < 272] + rng.sample(sorted(corp), min(len(corp), ctx.scale(40, 400)))
+        for k in keys:
+            for hx in corp[k][:1]:
+                seeds.append((f"carry@{'copy' if 256 <= int(k) < 272 else 'exp'}", bytes.fromhex(hx)))
     long_idx = set(rng.sample(range(len(seeds)), ctx.scale(4, 40)))
     for i, (cls, s) in enumerate(seeds):
         words = 4200 if i in long_idx else rng.choice([16, 48, 80])
         c = [f"new 0 Hc128Rng seed {s.hex()}", "u32 0", "u32 0", f"fill 0 {4 * words}", "u64 0"]
         cases.append(c)
         ctx.dist[f"hc128:{cls}:{'4cycles' if words == 4200 else 'blocks'}"] += 1
+    # deep positions: more than 65536 words (64 complete table cycles; block counter beyond 2^16)
+    for _ in range(ctx.scale(1, 4)):
+        sd = rand_bytes(rng, 32)
+        cases.append([f"new 0 Hc128Rng seed {sd.hex()}", f"fill 0 {4 * 66000}", "u32 0", f"fill 0 {4 * 3000}", "u64 0"])
+        ctx.dist["hc128:deep>65536 words"] += 1
     ctx.absolute("keystream(Hc128Rng) vs model", cases)
 
 def tie_C03(ctx):
@@ -163,14 +213,21 @@ def tie_C03(ctx):
             seeds.append(("byte", bytes(b)))
         for _ in range(ctx.scale(30, 500)):
             seeds.append(("random", rand_bytes(rng, 32)))
+        seeds += coincidence_seeds(rng, 32, k=ctx.scale(3, 12))
         for cls, s in seeds:
-            blocks = rng.choice([1, 3, 3, 5])
+            blocks = rng.choice([1, 3, 3, 5, 24])
             c = [f"new 0 {g} seed {s.hex()}", f"{nat} 0", f"fill 0 {blocks * 256 * wbytes}", "u32 0", "u64 0"]
             cases.append(c)
             ctx.dist[f"{g}:{cls}"] += 1
         for x in [0, 1, MASK64, 1 << 32, (1 << 32) - 1] + [rng.getrandbits(64) for _ in range(ctx.scale(20, 300))]:
             cases.append([f"new 0 {g} u64 {x:016x}", f"{nat} 0", f"fill 0 {2 * 256 * wbytes}"])
             ctx.dist[f"{g}:seed_from_u64"] += 1
+    # long runs: data-dependent index coincidences (both indirections hitting the slot being written) occur about
+    # once per 256 steps
+    for g, wbytes in (("IsaacRng", 4), ("Isaac64Rng", 8)):
+        for _ in range(ctx.scale(3, 20)):
+            cases.append([f"new 0 {g} seed {rand_bytes(rng, 32).hex()}", f"fill 0 {500 * 256 * wbytes}", f"{native(g)} 0"])
+            ctx.dist[f"{g}:500-blocks"] += 1
     ctx.absolute("stream(IsaacRng, Isaac64Rng) vs model", cases)
 
 # ------------------------------------------------------------------ C05: projections of one stream
@@ -211,6 +268,26 @@ def tie_C05(ctx):
                 if o.startswith("fill"):
                     n = int(o.split()[1])
                     ctx.dist[f"tail%8={n % 8}"] += 1
+    for g in ("Hc128Rng", "IsaacRng", "Isaac64Rng"):
+        info = GENS[g]
+        blk, wb = info["blk"], info["w"] // 8
+        nat = native(g)
+        ks = [0, 1, blk - 2, blk - 1, blk] if not ctx.thorough else list(range(0, blk + 1, max(1, blk // 32))) + [blk - 1, blk]
+        for k in ks:
+            for half in ([False, True] if info["cls"] == "block64" else [False]):
+                for m, d in ((1, 0), (2, 0), (1, 1), (1, -1), (3, 0), (0, wb), (1, -wb)):
+                    n = m * blk * wb + d
+                    if n < 0:
+                        continue
+                    for tail in (["u32"], ["u64"], ["u32", "u32", "u64"]):
+                        ops = [nat] * k + (["u32"] if half else []) + [f"fill {n}"] + tail
+                        seed = rand_bytes(rng, info["seed"])
+                        need = words_needed(g, ops)
+                        c = [f"new 0 {g} seed {seed.hex()}", "clone 1 0"] + op_lines(0, ops) + [f"{nat} 0"]
+                        ts = len(c)
+                        c += [f"{nat} 1"] * need
+                        cases.append(c); meta.append((g, ops, len(ops), ts, need))
+                        ctx.dist[f"{g}:index={k},half={half},fill=block-multiple"] += 1
     outs = ctx.real("projection(all 19 deterministic generators): history on subject, native-only twin", cases)
     # ask the executable Lean specification for the projection of the twin's *real* stream
     pcases = []
@@ -319,6 +396,7 @@ def tie_C06(ctx):
         states = [(1 << j).to_bytes(nb, "little") for j in basis]
         states += [rand_bytes(rng, nb) for _ in range(ctx.scale(24, 200))]
         states += [((1 << n) - 1).to_bytes(nb, "little")]
+        states += [s_ for _, s_ in coincidence_seeds(rng, nb, k=ctx.scale(2, 8))]
         for s in states:
             cases.append([f"new 0 {g} seed {s.hex()}", "clone 1 0", "jump 0", "ser 0", "ljump 1", "ser 1",
                           f"{nat} 0", f"{nat} 1"])
@@ -337,8 +415,48 @@ def tie_C06(ctx):
             if cmd.startswith("eq ") and x != "true":
                 ctx.fail("jump-commute", f"{c[0].split()[2]}: jump does not commute with stepping / long_jump", c,
                          expected="true", actual=x)
+    preimage_C06(ctx)
     if ctx.thorough:
         falsify_C06(ctx, sample=2)
+
+def preimage_C06(ctx):
+    """states chosen by their jump IMAGE: for a structured target t (one non-zero word, words summing to zero, …) compute
+    s = J^-1(T) t with real steps (J = x^(2^k) mod the minimal polynomial of the real engine, inverted modulo it) and
+    check that the real jump()/long_jump() takes s to t — covers code paths that depend on the value being stored"""
+    rng = ctx.rng
+    for g in JUMPERS:
+        info = GENS[g]
+        n, nb, w = info["n"], info["seed"], info["w"]
+        wb = w // 8
+        nw = nb // wb
+        targets = []
+        for k in range(nw):
+            b = bytearray(nb); b[k * wb:(k + 1) * wb] = rand_bytes(rng, wb); targets.append(bytes(b))
+        targets += [s_ for _, s_ in coincidence_seeds(rng, nb, k=1)][:4]
+        if not ctx.thorough:
+            targets = rng.sample(targets, min(len(targets), 3))
+        for t in targets:
+            if not any(t):
+                continue
+            S = real_orbit(ctx, g, t, 2 * n + 2)
+            P, L = gf2.min_poly_from_bits([x & 1 for x in S])
+            if L != n:
+                continue
+            for op, e in (("jump", 1 << (n // 2)), ("ljump", 1 << (3 * n // 4))):
+                Jinv = gf2.polyinv(gf2.powx(e, P), P)
+                if Jinv is None:
+                    continue
+                s_int = 0
+                for i in range(Jinv.bit_length()):
+                    if (Jinv >> i) & 1:
+                        s_int ^= S[i]
+                c = [f"new 0 {g} seed {s_int.to_bytes(nb, 'little').hex()}", f"{op} 0", "ser 0"]
+                o = ctx.real("jump of the pre-image of a structured target state (computed from real steps)", [c])[0]
+                ctx.dist[f"{g}:preimage-target"] += 1
+                if o[2] != t.hex():
+                    ctx.fail("jump-vs-steps", f"{g}.{'long_jump' if op == 'ljump' else 'jump'}() does not take this state to the state that "
+                             f"2^{(n//2) if op=='jump' else (3*n//4)} of its own steps reach (target has one non-zero word / a numeric coincidence)",
+                             c, expected=t.hex(), actual=o[2])
 
 def real_orbit(ctx, g, seed, steps):
     nat = native(g)
@@ -528,6 +646,12 @@ def tie_C08(ctx):
                 body = bytes(nb * k) + tail
                 r.append([f"src 1 {body.hex()}", f"new 0 {g} {how} 1", "ser 0", "pos 1", f"{native(g)} 0"])
                 ctx.dist[f"zero-blocks={k}"] += 1
+    for g in LINEAR:
+        nb = GENS[g]["seed"]
+        for cls, blk_ in coincidence_seeds(rng, nb, k=ctx.scale(1, 6)):
+            for how in ("rng", "try"):
+                r.append([f"src 1 {(blk_ + rand_bytes(rng, 2 * nb)).hex()}", f"new 0 {g} {how} 1", "ser 0", "pos 1", f"{native(g)} 0"])
+                ctx.dist["first-block:" + cls.split("_")[0]] += 1
     h, _ = ctx.absolute("from_rng/try_from_rng on sources with k leading all-zero blocks", r)
     for c, o in zip(r, h):
         g = c[1].split()[2]
@@ -537,7 +661,7 @@ def tie_C08(ctx):
         if g == "XorShiftRng" and o[1] == "ok":
             body = bytes.fromhex(c[0].split()[2])
             k = 0
-            while body[16 * k:16 * k + 16] == bytes(16):
+            while body[16 * k:16 * k + 16] == bytes(16) and 16 * k + 16 <= len(body):
                 k += 1
             want = body[16 * k:16 * k + 16].hex()
             if o[2] != want or o[3] != str(16 * (k + 1)):
@@ -603,6 +727,15 @@ def tie_C09(ctx):
                     c += [f"new 2 {g} seed {body[:nb].hex()}", "eq 0 2"]
                 c += [f"{native(g)} 0", "fill 0 33"]
                 fr.append(c)
+            if rep == 0:
+                for cls_, blk_ in coincidence_seeds(rng, nb if g not in ("IsaacRng", "Isaac64Rng") else 32, k=1)[:6]:
+                    body2 = (blk_ + rand_bytes(rng, nb + 24))
+                    for how in ("rng", "try"):
+                        c = [f"src 1 {body2.hex()}", f"new 0 {g} {how} 1", "pos 1"]
+                        if g not in ("IsaacRng", "Isaac64Rng"):
+                            c += [f"new 2 {g} seed {body2[:nb].hex()}", "eq 0 2"]
+                        c += [f"{native(g)} 0", "fill 0 33"]
+                        fr.append(c)
             # failing sources: at call 0, and (XorShift redraw) at call 1
             for fail_at in (0, 1):
                 b2 = (bytes(16) + body) if g == "XorShiftRng" else body
@@ -695,6 +828,20 @@ def tie_C10(ctx):
             cases.append(c)
             meta.append((g, kind, eq_at))
             ctx.dist[f"pair:{['clone','clone','same-history','near-miss'][kind]}"] += 1
+    for g in ("Hc128Rng", "IsaacRng", "Isaac64Rng"):
+        info = GENS[g]
+        blk, nat = info["blk"], native(g)
+        for k in [0, 1, blk - 1, blk, blk + 1, 2 * blk - 1, 2 * blk]:
+            for half in ([False, True] if info["cls"] == "block64" else [False]):
+                seed = rand_bytes(rng, info["seed"])
+                pre = [nat] * k + (["u32"] if half else [])
+                c = [f"new 0 {g} seed {seed.hex()}"] + op_lines(0, pre) + ["clone 1 0", "eq 0 1"]
+                eq_at = len(c) - 1
+                for o in ["u32", "u32", "u64", "fill 5", "u32"]:
+                    c += op_lines(0, [o]) + op_lines(1, [o])
+                c += ["eq 0 1"]
+                cases.append(c); meta.append((g, 0, eq_at))
+                ctx.dist[f"{g}:clone@index={k},half={half}"] += 1
     # Hc128Rng at two read positions of the same block
     for _ in range(ctx.scale(10, 100)):
         seed = rand_bytes(rng, 32)
@@ -773,6 +920,26 @@ def tie_C11(ctx):
         pairs = [(o[i], o[i + 1]) for i in range(at + 5, len(c) - 2, 2)]
         if not all(x == y for x, y in pairs) or o[-1] != o[-2]:
             ctx.fail("serde", f"{g}: restored generator has a different future", c)
+    # any byte string of the right length is a valid image of the word-state types: numeric coincidences included
+    wordy = [g for g in SERDE if "blk" not in GENS[g]]
+    crafted = []
+    for g in wordy:
+        nb = 8 if g == "SplitMix64" else GENS[g]["seed"]
+        imgs = [s_ for _, s_ in coincidence_seeds(rng, nb, k=ctx.scale(2, 10))] + [bytes(nb), b"\xff" * nb] + \
+               [rand_bytes(rng, nb) for _ in range(ctx.scale(3, 30))]
+        for img in imgs:
+            c = [f"de 0 {g} {img.hex()}", "ser 0", "rt 1 0", "ser 1", "eq 0 1", f"{native(g)} 0", f"{native(g)} 1", "ser 0", "ser 1"]
+            crafted.append(c)
+    hc = ctx.real("deserialising arbitrary valid images of the word-state generators reproduces them exactly", crafted)
+    for c, o in zip(crafted, hc):
+        g, img = c[0].split()[2], c[0].split()[3]
+        if o[0] != "ok":
+            ctx.fail("serde", f"{g}: a valid image was rejected by deserialisation", c, expected="ok", actual=o[0]); continue
+        if o[1] != img or o[3] != img:
+            ctx.fail("serde", f"{g}: deserialise-then-serialise does not reproduce the image (the state was altered)", c,
+                     expected=img, actual=o[1])
+        elif o[4] != "true" or o[5] != o[6] or o[7] != o[8]:
+            ctx.fail("serde", f"{g}: restored generator differs from the original", c)
     # malformed images: truncated, and an invalid bool for Isaac64Rng
     mal = []
     for g in SERDE:
@@ -813,6 +980,45 @@ def jitter_readings(rng, n, style=None):
         out.append(t)
     return out
 
+def meas_script(rng, deltas, t0=None, lc=None):
+    """readings for gen_entropy: priming reading, then per measurement [loop-count, time, loop-count] where the time
+    advances by exactly the given (signed) delta"""
+    t = t0 if t0 is not None else rng.getrandbits(44)
+    rs = [t]
+    for d in deltas:
+        t = (t + d) & MASK64
+        rs += [rng.getrandbits(64) if lc is None else lc, t, rng.getrandbits(64) if lc is None else lc]
+    return rs
+
+def stuck_pattern_deltas(rng, n):
+    """delta sequences from a small grammar that exercises every branch of the stuck test: repeats (first difference
+    0), arithmetic runs (second difference 0), zero deltas, staircases, wrap-around coincidences (differences equal
+    modulo 2^32 but not as integers), extreme values"""
+    out, d, step = [], rng.randrange(1, 5000), rng.randrange(1, 50)
+    while len(out) < n:
+        r = rng.random()
+        if r < 0.15:
+            out += [d] * rng.randrange(1, 4)                        # repeat
+        elif r < 0.30:
+            for _ in range(rng.randrange(2, 5)):                    # arithmetic run
+                d += step; out.append(d)
+        elif r < 0.40:
+            for _ in range(rng.randrange(2, 4)):                    # staircase: repeat, then the same step again
+                out += [d, d]; d += step
+        elif r < 0.45:
+            out.append(0)
+        elif r < 0.60:
+            base = rng.choice([-(1 << 31) + rng.randrange(0, 200), (1 << 31) - 1 - rng.randrange(0, 200), rng.randrange(-50, 50)])
+            x = rng.randrange(1, 200)
+            # d1 - d2 = 2^31 - x and d2 - d3 = -2^31 - x: equal modulo 2^32, different as integers
+            d2 = -(1 << 31) + rng.randrange(100, 1000)
+            out += [d2 + (1 << 31) - x, d2, d2 + (1 << 31) + x, base]
+        elif r < 0.70:
+            out.append(rng.choice([0x7fffffff, -0x80000000, -0x7fffffff, 0x7ffffffe, -1, 1]))
+        else:
+            d = rng.randrange(1, 100000); step = rng.randrange(1, 500); out.append(d)
+    return out[:n]
+
 def rd_hex(rs):
     return ",".join(f"{r:x}" for r in rs) if rs else "-"
 
@@ -843,6 +1049,19 @@ def tie_C12(ctx):
             c.append("pool 1")
         cases.append(c)
         ctx.dist["ops:" + ",".join(sorted({l.split()[0] for l in c[2:]}))[:60]] += 1
+    for i in range(ctx.scale(150, 2500)):
+        rounds = rng.choice([1, 2, 3, 5])
+        rs = meas_script(rng, stuck_pattern_deltas(rng, rng.choice([40, 120])))
+        c = [f"timer 0 {rd_hex(rs)}", "jit 1 0", f"rounds 1 {rounds}"]
+        for _ in range(rng.randrange(1, 5)):
+            c += [rng.choice(["u64 1", "u32 1", "fill 1 9"]), "calls 0", "pool 1"]
+        cases.append(c)
+        ctx.dist["stuck-pattern timers"] += 1
+    # more than 65536 consecutive stuck measurements inside one collection, then the timer recovers
+    for i in range(ctx.scale(1, 3)):
+        deltas = [1234] + [1000] * (65536 + rng.randrange(1, 40)) + [1007, 1019, 1051, 1004, 977, 1313, 2222, 3131, 4000, 4700]
+        cases.append([f"timer 0 {rd_hex(meas_script(rng, deltas))}", "jit 1 0", "rounds 1 2", "u64 1", "calls 0", "pool 1"])
+        ctx.dist["65536+ consecutive stuck measurements"] += 1
     h, m = ctx.absolute("JitterRng on scripted timers: results, pool and number of readings consumed vs model", cases,
                         stop_at_blocked=True)
     nb = sum(1 for o in h if "blocked" in o)
@@ -902,6 +1121,32 @@ def timer_oracle(rs):
         conds.add("TinyVariations")
     return conds, mean
 
+def exact_sum_probes(rng, thorough=False):
+    """probe delta sequences whose variation sum over the 300 counted probes is EXACTLY a chosen value: every table row
+    boundary 300*m + r for r in {0, 1, 149, 150, 151, 299} (fractional means matter for rounding mistakes)"""
+    out = []
+    ms = list(range(0, 19)) + [31, 32, 33, 63, 64, 65]
+    for m in ms:
+        for r in ((0, 1, 149, 150, 151, 299) if thorough or m in (1, 2, 15, 16, 17, 32) else (0, 150, 299)):
+            target = 300 * m + r
+            base = rng.randrange(150, 900)
+            ds = [base] * 400
+            # counted probes are 100..399; the first counted delta contributes |base - 0| = base
+            left = target - base
+            if left < 0:
+                continue
+            i = 101
+            while left > 0 and i < 399:
+                bump = min(left // 2, 140)
+                if bump == 0:
+                    break
+                ds[i] = base + bump; left -= 2 * bump; i += 2
+            if left == 1:
+                ds[399] = base + 1; left = 0
+            if left == 0:
+                out.append((f"exact-sum", ds))
+    return out
+
 def tie_C13(ctx):
     rng = ctx.rng
     scripts = []
@@ -931,6 +1176,17 @@ def tie_C13(ctx):
         if left == 1:
             ds[399] = 6; left = 0
         scripts.append(("sum-boundary", probe_script(rng, ds)))
+    for cls_, ds_ in exact_sum_probes(rng, thorough=ctx.thorough):
+        scripts.append((cls_, probe_script(rng, ds_)))
+    # multiples of 100 when some of them are backward steps (the count is on the signed 32-bit delta)
+    for nback in (1, 2, 3):
+        for total in (268, 269, 270, 271, 272, 273):
+            ds = [100 * rng.randrange(1, 60) for _ in range(total - nback)] + [-100 * rng.randrange(1, 20) for _ in range(nback)] + \
+                 [100 * rng.randrange(1, 60) + rng.randrange(1, 99) for _ in range(300 - total)]
+            rng.shuffle(ds)
+            scripts.append((f"mod100-with-backward={nback}", probe_script(rng, [rng.randrange(3, 90) for _ in range(100)] + ds)))
+    for _ in range(ctx.scale(30, 400)):
+        scripts.append(("stuck-pattern", probe_script(rng, [v if v else 1 for v in stuck_pattern_deltas(rng, 400)])))
     # error classes
     z = probe_script(rng, [rng.randrange(1, 50) for _ in range(400)]); z[1 + 4 * rng.randrange(400)] = 0
     scripts.append(("zero-reading", z))
@@ -992,8 +1248,62 @@ def tie_C13(ctx):
         if o[3] != "ok":
             ctx.fail("test_timer", "set_rounds(test_timer()?) panicked", c, expected="ok", actual=o[3])
 
+def image_surgery_C10(ctx):
+    """== on generators whose serde images differ in one, two or three words (same or cancelling masks):
+    a `==` that says equal must come with identical futures"""
+    rng = ctx.rng
+    base = []
+    for g in SERDE:
+        for _ in range(ctx.scale(2, 12)):
+            base.append([f"new 0 {g} seed {pick_seed(rng, GENS[g]['seed']).hex()}", f"{native(g)} 0", "ser 0"])
+    o1 = ctx.real("images for == surgery", base)
+    cases, meta = [], []
+    for c0, o in zip(base, o1):
+        g = c0[0].split()[2]
+        img = bytes.fromhex(o[2])
+        wsz = 4 if GENS[g]["w"] == 32 else 8
+        # word positions that hold state words (for ISAAC: the mem array, after results+index(+half))
+        if g == "IsaacRng":
+            lo, hi = 1024 + 8, 1024 + 8 + 1024 + 12
+        elif g == "Isaac64Rng":
+            lo, hi = 2048 + 9, 2048 + 9 + 2048 + 24
+        else:
+            lo, hi = 0, len(img)
+        nwords = (hi - lo) // wsz
+        for shape in ("one", "two-same-mask", "two-diff-mask", "three-cancel"):
+            b = bytearray(img)
+            m1 = rng.getrandbits(8 * wsz) | 1
+            m2 = rng.getrandbits(8 * wsz) | 1
+            pos = rng.sample(range(nwords), min(3, nwords))
+            masks = {"one": [m1], "two-same-mask": [m1, m1], "two-diff-mask": [m1, m2], "three-cancel": [m1, m2, m1 ^ m2]}[shape]
+            if len(pos) < len(masks):
+                continue
+            for p_, mk in zip(pos, masks):
+                off = lo + p_ * wsz
+                v = int.from_bytes(b[off:off + wsz], "little") ^ mk
+                b[off:off + wsz] = v.to_bytes(wsz, "little")
+            c = [f"de 0 {g} {img.hex()}", f"de 1 {g} {bytes(b).hex()}", "eq 0 1"]
+            for op in ("u32", "u64", "fill 9", "u32"):
+                c += op_lines(0, [op]) + op_lines(1, [op])
+            if GENS[g]["blk"] if "blk" in GENS[g] else 0:
+                c += [f"fill 0 {GENS[g]['blk'] * wsz}", f"fill 1 {GENS[g]['blk'] * wsz}", "u64 0", "u64 1"]
+            cases.append(c); meta.append((g, shape))
+            ctx.dist[f"surgery:{shape}"] += 1
+    h = ctx.real("== on images differing in 1-3 state words (same / different / cancelling masks), then identical ops", cases)
+    for (g, shape), c, o in zip(meta, cases, h):
+        if o[0] != "ok" or o[1] != "ok":
+            continue
+        same = all(o[i] == o[i + 1] for i in range(3, len(c) - 1, 2))
+        if o[2] == "true" and not same:
+            ctx.fail("eq-future", f"{g}: two generators whose states differ ({shape}) compare equal but return different values", c,
+                     expected="false", actual="true")
+
+def tie_C10_all(ctx):
+    tie_C10(ctx)
+    image_surgery_C10(ctx)
+
 PROPS.update({
-    "C10": dict(tie=tie_C10),
+    "C10": dict(tie=tie_C10_all),
     "C11": dict(tie=tie_C11),
     "C12": dict(tie=tie_C12, absolute=True),
     "C13": dict(tie=tie_C13),
@@ -1054,6 +1364,32 @@ def tie_C14(ctx):
         ds = [(a if i % 2 == 0 else a + m) for i in range(400)]
         cases.append([f"timer 0 {rd_hex(probe_script(rng, ds))}", "jit 1 0", "testtimer 1"])
         ctx.dist["jitter-test_timer-mean-sweep"] += 2
+    for cls_, ds_ in exact_sum_probes(rng, thorough=ctx.thorough):
+        cases.append([f"timer 0 {rd_hex(probe_script(rng, ds_))}", "jit 1 0", "testtimer 1"])
+        ctx.dist["jitter-test_timer-exact-sum"] += 1
+    for _ in range(ctx.scale(40, 600)):
+        cases.append([f"timer 0 {rd_hex(meas_script(rng, stuck_pattern_deltas(rng, 60)))}", "jit 1 0", f"rounds 1 {rng.choice([1, 2, 3])}",
+                      "u64 1", "u32 1", "fill 1 7"])
+        ctx.dist["jitter-stuck-patterns"] += 1
+    # states that a very long history reaches (block counters at their maximum), injected through the serde image
+    inj = []
+    for g in ("IsaacRng", "Isaac64Rng"):
+        inj.append([f"new 0 {g} seed {rand_bytes(rng, 32).hex()}", f"{native(g)} 0", "ser 0"])
+    oi = ctx.real("images for counter-extreme states", inj)
+    for c0, o in zip(inj, oi):
+        g = c0[0].split()[2]
+        if o[2] in ("unsupported", "panic"):
+            continue
+        img = bytearray(bytes.fromhex(o[2]))
+        wsz = 4 if g == "IsaacRng" else 8
+        for fields in ((1, 1, 1), (0, 0, 1), (1, 0, 0), (0, 1, 0)):        # a, b, c at all-ones
+            b = bytearray(img)
+            for k, on in enumerate(fields):
+                if on:
+                    off = len(b) - (3 - k) * wsz
+                    b[off:off + wsz] = b"\xff" * wsz
+            cases.append([f"de 0 {g} {bytes(b).hex()}", f"fill 0 {3 * 256 * wsz}", "u32 0", "u64 0"])
+            ctx.dist[f"{g}:counter fields at maximum"] += 1
     # every deterministic generator: extreme seeds, zero / odd / large fills at every buffer index
     for g in GENS:
         info = GENS[g]
@@ -1075,7 +1411,7 @@ def tie_C14(ctx):
             for how in ("rng", "try"):
                 cases.append([f"src 1 {body.hex()}", f"new 0 {g} {how} 1", f"{native(g)} 0"])
     # HC-128 far into the stream (counter arithmetic), ISAAC across many refills
-    cases.append(["new 0 Hc128Rng seed " + "07" * 32] + ["fill 0 65536"] * 3 + ["u32 0", "u64 0"])
+    cases.append(["new 0 Hc128Rng seed " + "07" * 32] + ["fill 0 65536"] * 5 + ["u32 0", "u64 0"])
     cases.append(["new 0 IsaacRng seed " + "09" * 32] + ["fill 0 65535"] * 2 + ["u32 0", "u64 0"])
     cases.append(["new 0 Isaac64Rng seed " + "0b" * 32] + ["fill 0 65535"] * 2 + ["u32 0", "u64 0", "u32 0"])
     # C14 is about panics only: two results agree unless exactly one of them is `panic`
